@@ -38,6 +38,23 @@ register("C07", module="schedchecks", fn="case_c07", replay="replay_c07", binari
          assumptions=["Go map iteration order inside instrumented packages is replaced by a seeded per-task shuffle, so map-order leaks vary between runs of a case as they would between real runs"],
          components={"real": REAL_WHOLE, "stub": STUB_WHOLE})
 
+REAL_CACHE = ["src/cache dirCache (Store/Retrieve/clean, compressed and not)", "src/fs copy/link/walk helpers", "core.BuildTarget", "kernel tmpfs via FS shim"]
+STUB_CACHE = ["task scheduling (seeded scheduler in a synctest bubble)", "process crash = task freeze at the n-th FS operation (page cache survives, open written files torn to a PRNG prefix)",
+              "RemoveAll executed as its individual unlink/rmdir steps", "second checkout / process = second dirCache object with its own output directory"]
+
+register("C12", module="cachechecks", fn="case_c12", replay="replay_harness", binaries=("cache",),
+         cases={"quick": 30, "thorough": 1500}, budget={"quick": 240, "thorough": 3000}, level="fault_enumeration",
+         rule="three scenario families on the real dirCache: (c12) for a generated output tree (files, nested/empty dirs, relative symlinks, exec bits, odd names; compressed or not; first store or re-store over a published entry) a crash is injected before EVERY filesystem operation of Store in turn (with and without torn writes), then a fresh process retrieves into another checkout; (c12m) fault-free random Store/Retrieve/restart sequences against a key->tree model; (c12c) 2-3 processes store/retrieve the SAME key concurrently with every FS operation a scheduling point. evaluations = crash runs + retrieves checked + concurrent runs; distinct_nontrivial = distinct (scenario, crash point) with the crash actually fired on a tree of >=2 entries, plus concurrent runs with >=5 real scheduling choices",
+         assumptions=["crash model = process kill: data already written survives, files open for writing may be cut to a prefix; no power-loss reordering",
+                      "a hit must restore exactly the complete tree of some Store of that key (old or new); a miss is always acceptable after a crash"],
+         components={"real": REAL_CACHE, "stub": STUB_CACHE})
+
+register("C14", module="cachechecks", fn="case_c14", replay="replay_harness", binaries=("cache",),
+         cases={"quick": 24, "thorough": 1200}, budget={"quick": 240, "thorough": 3000}, level="exploration",
+         rule="scenario = generated cache directory (0-8 entries of sha1- and sha256-length keys, several per target, access times clustered around the 600 s grace period, stray `key=` temporaries, non-entry files, compressed or not) + Store/Retrieve operations of the current process before (phase 1) and concurrently with (phase 2) the real clean(high, low), water marks below/at/one above/half/zero of the unprotected size; oracle: entries stored or retrieved before cleaning started survive complete, every key path that still exists retrieves completely, no concurrent Retrieve returns a partial tree, and if the unprotected size reached the high-water mark then afterwards it is below the low-water mark or nothing unprotected is left; distinct_nontrivial = scenarios with >=2 entries, by (seed, schedule length)",
+         assumptions=["sizes are measured as the cleaner measures them (sum of st_size over a walk)", "LRU order is not asserted", "operations concurrent with clean may hit or miss but never return a partial tree"],
+         components={"real": REAL_CACHE, "stub": STUB_CACHE})
+
 
 def cmd_check(pid, tier):
     import framework
